@@ -231,4 +231,20 @@ def setup_process():
 
 def reset_parser_singleton():
     """S6: a run is a pure function of its seed."""
-    DD.parser._parsers.pop('boolean', None)
+    tr = DD.parser._parsers.pop('boolean', None)
+    if tr is not None:
+        # a parse that raised leaves the manager and, on PLY's stack, node
+        # references behind; PLY's module-global `parse` keeps the parser
+        # itself alive until the next one is built
+        tr.__dict__['_bdd'] = None
+        lr = tr.__dict__.get('parser')
+        for attr in ('symstack', 'statestack'):
+            st = getattr(lr, attr, None)
+            if isinstance(st, list):
+                del st[:]
+    try:
+        import ply.yacc
+        if 'parse' in ply.yacc.__dict__:
+            ply.yacc.__dict__['parse'] = None
+    except ImportError:
+        pass
